@@ -75,7 +75,7 @@ impl Property for C17 {
         t.pick(1_800_000, 30_000_000)
     }
     fn expected_labels() -> Vec<&'static str> {
-        vec!["series", "repeated_abscissa", "negative_scale", "cut_inside", "cut_on_knot", "split", "resample", "crossings", "linear_reversed", "push_rejected", "try_from_err", "had_nan", "single_point"]
+        vec!["series", "fs_over_wider_domain", "repeated_abscissa", "negative_scale", "cut_inside", "cut_on_knot", "split", "resample", "crossings", "linear_reversed", "push_rejected", "try_from_err", "had_nan", "single_point"]
     }
     fn strategy(_t: Tier) -> BoxedStrategy<Case> {
         let series = (coord(10.0), incs(59), prop::collection::vec(prop_oneof![2 => coord(5.0), 1 => (-3i32..=3).prop_map(|k| k as f64)], 60), prop::collection::vec(prop::bool::weighted(0.08), 60), prop::bool::weighted(0.15), prop::collection::vec(op(), 0..6), prop::collection::vec(prop_oneof![1 => (-3i32..=3).prop_map(|k| k as f64), 2 => unif(-5.0, 5.0)], 1..4))
@@ -548,6 +548,33 @@ fn check_series(start: f64, incs: &[f64], ys: &[f64], nan_mask: &[bool], ops: &[
     for x in [next_down(m.xs[0]), next_up(m.xs[n - 1]), m.xs[0] - 1.0, m.xs[n - 1] + 1.0] {
         let got = cur.interpolate(x);
         ensure!(got.is_nan(), "C17/interpolate/outside_not_nan", "interpolate({x:e}) outside [{:e},{:e}] returned {got:e}", m.xs[0], m.xs[n - 1]);
+    }
+    // the vectorised evaluation over a domain reaching beyond both ends: one value per abscissa, each equal to f there
+    // (NaN outside), and a series sampled over it has as many ordinates as abscissae
+    {
+        use engeom::func1::Func1;
+        let span = (m.xs[n - 1] - m.xs[0]).abs().max(1.0);
+        let mut dx: Vec<f64> = vec![m.xs[0] - 0.5 * span, m.xs[0] - 0.25 * span];
+        dx.extend(probes.iter().cloned());
+        dx.push(m.xs[n - 1] + 0.25 * span);
+        dx.push(m.xs[n - 1] + 0.5 * span);
+        dx.sort_by(|a, b| a.partial_cmp(b).unwrap());
+        if let Ok(dom) = DiscreteDomain::try_from(dx.clone()) {
+            let ys = match guarded(|| cur.fs(&dom)) {
+                Ok(y) => y,
+                Err(msg) => return Verdict::fail("C17/fs/panic", msg),
+            };
+            ensure!(ys.len() == dx.len(), "C17/fs/length", "fs over a domain of {} abscissae (reaching beyond both ends of the series) returned {} values", dx.len(), ys.len());
+            for (x, y) in dx.iter().zip(ys.iter()) {
+                let w = cur.f(*x);
+                let ambiguous = matches!(m.eval(*x), Eval::Ambiguous);
+                ensure!(ambiguous || *y == w || (y.is_nan() && w.is_nan()), "C17/fs/value", "fs gives {y:e} at {x:e}, f gives {w:e}");
+            }
+            if let Ok(sampled) = guarded(|| Series1::from_sampled(&cur, dom.clone())) {
+                ensure!(sampled.y.len() == sampled.x.len(), "C17/from_sampled/lengths", "from_sampled over a wider domain has {} abscissae and {} ordinates", sampled.x.len(), sampled.y.len());
+            }
+            cx.label("fs_over_wider_domain");
+        }
     }
     // area = trapezoid sum
     if n >= 2 {
